@@ -53,6 +53,10 @@ type Runner struct {
 	done   chan struct{}
 	alive  int32
 
+	apiStop chan struct{}
+	apiDone <-chan struct{}
+	APIURL  string
+
 	// observation state
 	prevHist    map[string]string
 	prevHoldN   int
